@@ -1,0 +1,54 @@
+//! Verification hooks: branch-coverage counters and float-estimate taps.
+//!
+//! Compiled only with the `recmo_uint_verif` feature. Evidence only: nothing in
+//! here influences the result of any operation.
+
+#![allow(missing_docs)]
+
+use core::sync::atomic::{AtomicU64, Ordering};
+
+/// Number of counter slots.
+pub const SLOTS: usize = 128;
+
+#[allow(clippy::declare_interior_mutable_const)]
+const ZERO: AtomicU64 = AtomicU64::new(0);
+static COUNTERS: [AtomicU64; SLOTS] = [ZERO; SLOTS];
+
+/// Record that branch `id` was taken.
+#[inline]
+pub fn hit(id: usize) {
+    COUNTERS[id % SLOTS].fetch_add(1, Ordering::Relaxed);
+}
+
+/// Read all counters.
+#[must_use]
+pub fn snapshot() -> [u64; SLOTS] {
+    let mut out = [0; SLOTS];
+    for (o, c) in out.iter_mut().zip(COUNTERS.iter()) {
+        *o = c.load(Ordering::Relaxed);
+    }
+    out
+}
+
+/// Reset all counters.
+pub fn reset() {
+    for c in &COUNTERS {
+        c.store(0, Ordering::Relaxed);
+    }
+}
+
+std::thread_local! {
+    static TAP: core::cell::Cell<Option<u64>> = const { core::cell::Cell::new(None) };
+}
+
+/// Record an intermediate estimate (e.g. the float-derived first guess of
+/// `log` or `root`), as raw bits.
+pub fn tap(value: u64) {
+    TAP.with(|t| t.set(Some(value)));
+}
+
+/// Take the last recorded estimate.
+#[must_use]
+pub fn take_tap() -> Option<u64> {
+    TAP.with(core::cell::Cell::take)
+}
